@@ -118,7 +118,9 @@ class ExprGen:
                          "((((((((((1))))))))))", "1 if", "lambda", "[1, 2", "{", "{'a': 1}", "[1, 2, 3]", "{\"k\": [1, 2]}",
                          "(" * 60 + "1" + ")" * 60, "[" * 300, "-" * 80 + "1", "not " * 60 + "1",
                          "1" + "+1" * 100, "9" * 5000, "\ud800", "'\ud800'", "tru e", "\t2 + 2", "2 +\n 2",
-                         "0 or 5", "(2 or 3) - 1", "len('True') == 4", "true and false", "1 < 2 < 3", "3 > 2 > 2"])
+                         "0 or 5", "(2 or 3) - 1", "len('True') == 4", "true and false", "1 < 2 < 3", "3 > 2 > 2",
+                         "1\r2", "max(1,\r2))", "(\r", "1 +\r\r)", "1\n\n2", "\r\n1 1", "1\x0c2", "a\u2028b", "1\r\r\r+", "'\r' '",
+                         "1\t\t2", "[1,\r2", "{1:\r2,}}", "\ufeff1 1"])
 
 
 def _child(expr, pathway, q):
@@ -271,7 +273,7 @@ class C01(Check):
         for cls, outcome, _nd in rec.nodes:
             if cls not in MC.SPEC_CLASSES and outcome and outcome[0] == "ret":
                 return Violation("C01/forbidden-node-evaluated", f"the walker evaluated an ast.{cls} node and returned a value")
-        for kind, name, args, kw, r in rec.log:
+        for kind, name, args, kw, r in (e[:5] for e in rec.log):
             ok = ((kind in ("bin", "un") and name in MC.SPEC_OPERATORS) or (kind == "cmp" and name in MC.SPEC_COMPARISONS)
                   or (kind == "call" and name in MC.SPEC_FUNCTIONS) or (kind == "tool" and name in [t.name for t in rec.tools]))
             if not ok:
@@ -341,8 +343,41 @@ class C01(Check):
                     v.case = case
                     self.violations.append(v)
                     break
-        # 2. walker probes for every forbidden construct: must fail, must not evaluate the node
         self.extra_cov["table_probes"] = n_probe
+        # 2. only EXPLICITLY REGISTERED tools run: after a tool is replaced or removed, the old body must not run
+        from operon_ai.organelles.mitochondria import SimpleTool
+        from operon_ai.providers import ToolCall
+        n_id = 0
+        for first_call in ("expr", "call", None):
+            for change in ("replace", "delete"):
+                for second_call in ("expr", "call"):
+                    ran = []
+                    m = Mitochondria(silent=True)
+                    m.engulf_tool(SimpleTool(name="tt", description="v1", func=lambda *a, **k: ran.append("old") or 1))
+                    if first_call == "expr":
+                        m.metabolize("tt()")
+                    elif first_call == "call":
+                        m.execute_tool_call(ToolCall(id="1", name="tt", arguments={}))
+                    if change == "replace":
+                        m.engulf_tool(SimpleTool(name="tt", description="v2", func=lambda *a, **k: ran.append("new") or 2))
+                    else:
+                        del m.tools["tt"]
+                    del ran[:]
+                    try:
+                        if second_call == "expr":
+                            m.metabolize("tt()")
+                        else:
+                            m.execute_tool_call(ToolCall(id="2", name="tt", arguments={}))
+                    except BaseException as e:  # noqa
+                        ran.append("raised:" + type(e).__name__)
+                    n_id += 1
+                    if "old" in ran or any(x.startswith("raised") for x in ran):
+                        self.violations.append(Violation(
+                            "C01/unregistered-tool-ran" if "old" in ran else "C01/raises",
+                            f"history [register tt; {first_call or 'no'} call; {change}; {second_call} call]: {ran}",
+                            case={"history": ["register tt", first_call, change, second_call], "expr": "tt()", "pathway": None,
+                                  "tools": [], "allowed": None, "silent": True, "tool_identity_probe": True}))
+        self.extra_cov["tool_identity_probes"] = n_id
         # 3. resource stream, each in a child process with a hard limit
         stream = [("9**9**9", None), ("2**100000", None), ("factorial(3000)", None), ("'ab' * 10**9", None),
                   ("1" + "+1" * 2000, None), ("-" * 5000 + "1", "math"), ("(" * 4000 + "1" + ")" * 4000, None),
